@@ -5,6 +5,7 @@ import (
 	"fmt"
 	"strings"
 
+	ipld "github.com/ipld/go-ipld-prime"
 	"github.com/ipld/go-ipld-prime/codec/dagcbor"
 	"github.com/ipld/go-ipld-prime/codec/dagjson"
 	"github.com/ipld/go-ipld-prime/datamodel"
@@ -246,6 +247,7 @@ func runC09(c *core.Ctx) error {
 	if err := c09EnumKeys(c, c.Rand.Fork(), c.Pick(150, 20000), "C09"); err != nil {
 		return err
 	}
+	c09DslAnon(c)
 	nSchemas := c.Pick(5000, 250000)
 	cfg := core.DefaultSchemaCfg
 	var batch []c09Case
@@ -758,4 +760,96 @@ func replayEnumKey(c *core.Ctx, rp core.Replay, pfx string) error {
 		pend.add(rp.Case, ekLookupObs(view, string(key)), "route="+route)
 	}
 	return pend.flush(c, pfx)
+}
+
+// c09DslAnon: the schema as its AUTHOR writes it - DSL text compiled with ipld.LoadSchemaBytes - with inline (anonymous)
+// map and list types that differ ONLY in the nullability of their values, in every order: each field accepts a null
+// element exactly when its own declaration says `nullable`, at the type level and at the representation level.
+// (The compiler names anonymous types after their shape; the pinned tree left the nullability out of the name, so the
+// first of two such types defined both: repaired in the library.)
+func c09DslAnon(c *core.Ctx) {
+	r := c.Rand.Fork()
+	for iter := 0; iter < c.Pick(40, 2000); iter++ {
+		nf := 2 + r.Intn(4)
+		elem := []string{"Int", "String"}[r.Intn(2)]
+		type fld struct {
+			name     string
+			isMap    bool
+			nullable bool
+		}
+		var fields []fld
+		var dsl strings.Builder
+		dsl.WriteString("type S struct {\n")
+		for i := 0; i < nf; i++ {
+			f := fld{name: fmt.Sprintf("f%d", i), isMap: r.Bool(), nullable: r.Bool()}
+			fields = append(fields, f)
+			nul := ""
+			if f.nullable {
+				nul = "nullable "
+			}
+			if f.isMap {
+				fmt.Fprintf(&dsl, "  %s {String:%s%s}\n", f.name, nul, elem)
+			} else {
+				fmt.Fprintf(&dsl, "  %s [%s%s]\n", f.name, nul, elem)
+			}
+		}
+		dsl.WriteString("}\n")
+		ts, err := ipld.LoadSchemaBytes([]byte(dsl.String()))
+		if err != nil {
+			c.Fail("C09/dsl-schema-refused", core.Replay{Kind: "oracle", Case: "c09.dsl-anon " + dsl.String(), Impl: err.Error()})
+			return
+		}
+		okVal := "1"
+		if elem == "String" {
+			okVal = `"s"`
+		}
+		for probe := 0; probe < nf; probe++ {
+			for _, withNull := range []bool{true, false} {
+				var doc strings.Builder
+				doc.WriteString("{")
+				for i, f := range fields {
+					if i > 0 {
+						doc.WriteString(",")
+					}
+					v := okVal
+					if i == probe && withNull {
+						v = "null"
+					}
+					if f.isMap {
+						fmt.Fprintf(&doc, `"%s":{"k":%s}`, f.name, v)
+					} else {
+						fmt.Fprintf(&doc, `"%s":[%s]`, f.name, v)
+					}
+				}
+				doc.WriteString("}")
+				for _, level := range []string{"type", "repr"} {
+					var derr error
+					_, panicked, pv := core.Catch(func() error {
+						proto := bindnode.Prototype(nil, ts.TypeByName("S"))
+						nb := proto.NewBuilder()
+						if level == "repr" {
+							nb = proto.Representation().NewBuilder()
+						}
+						derr = dagjson.Decode(nb, strings.NewReader(doc.String()))
+						if derr == nil {
+							_ = nb.Build()
+						}
+						return nil
+					})
+					want := !withNull || fields[probe].nullable
+					caseID := fmt.Sprintf("c09.dsl-anon %s level=%s INPUT %s SCHEMA %s", fields[probe].name, level, doc.String(), strings.ReplaceAll(dsl.String(), "\n", " "))
+					c.Count(caseID, withNull)
+					c.Dist(fmt.Sprintf("dsl-anon:null=%v:nullable=%v", withNull, fields[probe].nullable))
+					switch {
+					case panicked:
+						c.Fail("C09/dsl-anon-panics", core.Replay{Kind: "oracle", Case: caseID, Impl: fmt.Sprint(pv)})
+					case want && derr != nil:
+						c.Fail("C09/conforming-input-not-built", core.Replay{Kind: "oracle", Case: caseID, Impl: derr.Error(), Expected: "built", Detail: "inline anonymous types that differ only in the nullability of their values"})
+					case !want && derr == nil:
+						c.Fail("C09/non-conforming-input-built", core.Replay{Kind: "oracle", Case: caseID, Impl: "built", Expected: "refused: null where the schema does not allow it", Detail: "inline anonymous types that differ only in the nullability of their values"})
+					}
+				}
+			}
+		}
+	}
 }
